@@ -64,6 +64,17 @@ func groupsFor(tier string) []groupDef {
 			}
 		}
 	}
+	// a struct shared by requests and responses: a RESPONSE-only annotation (api.http_code) listed in front of a request
+	// source - it never has a value in a request, the next listed source decides
+	for _, t := range []ftype{tI32, tString} {
+		for _, x := range reqSources {
+			if t.quoted && x == httpref.Cookie {
+				continue
+			}
+			l := []httpref.Source{httpref.Code, x}
+			gs = append(gs, groupDef{name: fmt.Sprintf("req/root/%s/%s", t.name, listName(l)), kind: "req", t: t, list: l, level: "root"})
+		}
+	}
 	if tier == "thorough" {
 		// every ordered list of three annotations, root level, two scalar types
 		for _, t := range []ftype{tString, tI32} {
@@ -132,7 +143,7 @@ func enumRequests(g groupDef, tier string, yield func(core.Case) bool) {
 	// controllable listed sources
 	var ctl []httpref.Source
 	for _, x := range g.list {
-		if x != httpref.RawBody && x != httpref.RawURI {
+		if x != httpref.RawBody && x != httpref.RawURI && x != httpref.Code { // (a response-only annotation never has a value in a request)
 			ctl = append(ctl, x)
 		}
 	}
